@@ -15,7 +15,7 @@ from vfw.schema import T
 BUF = 8
 BOUNDS = ("seek-back wrapper: the real CachingStreamWrapper over a non-seekable raw double holding 24 octets, io.DEFAULT_BUFFER_SIZE scaled to %d so that the cache-drop branch is "
           "reachable, histories of N = 3 (quick) / 4 (thorough) symbolic operations from {read(n), peek(n), set mark at current position, seek back to mark + d, tell}, arguments "
-          "0..6, compared with a reference cursor over the same bytes (positions compared relative to the last mark); decode across kinds: SEQUENCE OF OCTET STRING with 0..3 "
+          "0..6, compared with a reference cursor over the same bytes (positions compared relative to the last mark); the same over a non-blocking raw stream of 10 octets (symbolic arrival, arguments -1/0/1/2/4/11: everything / beyond the end); decode across kinds: SEQUENCE OF OCTET STRING with 0..3 "
           "elements of 0..6 octets (definite and indefinite), nested SEQUENCE, plain OCTET STRING of 0..20 octets, straddling multiples of the scaled buffer size, through bytes, "
           "io.BytesIO, OCTET STRING value, ANY value, seekable double, non-seekable double behind the wrapper: same value, remainder (2 trailing octets) and error class" % BUF)
 OUTSIDE = "real files, gzip and zipfile readers (OS/zlib I/O is C code; their dispatch in asSeekableStream - seekable or wrapped - is what the doubles exercise); the real 8192-octet buffer size"
@@ -103,6 +103,86 @@ def wrapper_history(n_steps, ops):
     return _with_small_buffer(run)
 
 
+class _RawNB(object):
+    """Non-seekable, non-blocking raw stream: `avail` octets have arrived; read() -> None while nothing new is there and the writer has not closed."""
+
+    def __init__(self, data, avail):
+        self._d, self._p, self.avail = data, 0, avail
+
+    def seekable(self):
+        return False
+
+    def more(self):
+        self.avail = len(self._d)  # the rest arrives and the writer closes
+
+    def read(self, n=-1):
+        end = self.avail if (n is None or n < 0) else min(self._p + n, self.avail)
+        if self._p < end:
+            r = self._d[self._p:end]
+            self._p = end
+            return r
+        if n == 0:
+            return b""
+        return b"" if self.avail >= len(self._d) else None
+
+
+DATA10 = bytes(range(97, 107))
+
+
+NB_ARGS = (-1, 0, 1, 2, 4, 11)
+NB_AVAIL = (0, 3, 10)
+
+
+def wrapper_nb2(av, when, op0, i0, op1, i1):
+    return wrapper_nb(NB_AVAIL[av], when, op0, NB_ARGS[i0], op1, NB_ARGS[i1], 4, 0)
+
+
+def wrapper_nb3(av, when, op0, i0, op1, i1, op2, i2):
+    return wrapper_nb(NB_AVAIL[av], when, op0, NB_ARGS[i0], op1, NB_ARGS[i1], op2, NB_ARGS[i2])
+
+
+def wrapper_nb(avail, when, op0, a0, op1, a1, op2, a2):
+    """The wrapper over a non-blocking raw stream of 10 octets of which `avail` have arrived; the rest arrives before step `when`.
+    Arguments -1 (= everything available) .. 12 (beyond the end).  Reference: a cursor over the arrived prefix."""
+    ops = [(op0, a0), (op1, a1), (op2, a2)]
+
+    def run():
+        raw = _RawNB(DATA10, avail)
+        try:
+            w = streaming.CachingStreamWrapper(raw)
+        except AttributeError:
+            raise Skip()
+        c, m, wm = 0, 0, w.tell()
+        for step, (op, a) in enumerate(ops):
+            if step == when:
+                raw.more()
+            if op in (0, 1):
+                end = raw.avail if a < 0 else min(c + a, raw.avail)
+                want = DATA10[c:end] if c < end else (b"" if (a == 0 or raw.avail >= len(DATA10)) else None)
+                got = w.read(a) if op == 0 else w.peek(a)
+                if got != want:
+                    return "step %d: %s(%d) returned %r, a stream over the arrived octets returns %r" % (step, ("read", "peek")[op], a, got, want)
+                if op == 0 and want:
+                    c += len(want)
+            elif op == 2:
+                w.markedPosition = w.tell()
+                m, wm = c, w.tell()
+            elif op == 3:
+                if a < 0 or m + a > c:
+                    raise Skip()
+                w.seek(w.markedPosition + a)
+                c = m + a
+            if w.tell() - wm != c - m:
+                return "step %d: position relative to the mark is %d, reference %d" % (step, w.tell() - wm, c - m)
+        raw.more()
+        rest = w.read()
+        if rest != DATA10[c:]:
+            return "final read() returned %r instead of %r" % (rest, DATA10[c:])
+        return None
+
+    return _with_small_buffer(run)
+
+
 def wrapper3(op0, a0, op1, a1, op2, a2):
     return wrapper_history(3, [(op0, a0), (op1, a1), (op2, a2)])
 
@@ -180,6 +260,13 @@ OBLIGATIONS = [
         shards=[{"op0": C(o)} for o in range(5)], budget=120, doc="CachingStreamWrapper vs seekable reference, every 3-operation history"),
     Obl("wrapper4", wrapper4, {"op0": I(0, 4), "a0": I(0, 6), "op1": I(0, 4), "a1": I(0, 6), "op2": I(0, 4), "a2": I(0, 6), "op3": I(0, 4), "a3": I(0, 6)},
         shards=[{"op0": C(o), "op1": C(p)} for o in range(5) for p in range(5)], thorough_budget=300, tiers=("thorough",)),
+    Obl("wrapper_nb2", wrapper_nb2, {"av": I(0, 2), "when": I(0, 2), "op0": I(0, 3), "i0": I(0, 5), "op1": I(0, 3), "i1": I(0, 5)},
+        shards=[{"op0": C(o), "when": C(wh)} for o in range(4) for wh in range(3)], budget=150,
+        doc="CachingStreamWrapper over a non-blocking raw stream (None = no data yet): reads/peeks of everything (-1), 0, 1, 2, 4, 11 (beyond the end) octets, marks, "
+            "backward seeks, across the arrival of the rest; 2-operation histories + final read; 0/3/10 of 10 octets arrived at the start"),
+    Obl("wrapper_nb3", wrapper_nb3, {"av": I(0, 2), "when": I(0, 3), "op0": I(0, 3), "i0": I(0, 5), "op1": I(0, 3), "i1": I(0, 5), "op2": I(0, 3), "i2": I(0, 5)},
+        shards=[{"op0": C(o), "when": C(wh), "op1": C(p)} for o in range(4) for wh in range(4) for p in range(4)], thorough_budget=400, tiers=("thorough",),
+        doc="the same with 3-operation histories"),
     Obl("wrapper_long", wrapper_long, {"r0": I(0, 3), "r1": I(5, 10), "r2": I(0, 4), "b0": I(0, 4), "b1": I(0, 6)},
         shards=[{"r0": C(a)} for a in range(4)], budget=120,
         doc="two marks with reads straddling the (scaled) buffer size, then a backward seek and a read"),
